@@ -205,6 +205,7 @@ func checkC16(p *Prog, res *Result, tier string) {
 	res.rule("C16-R2", "recognisers equate all accepted keys, test RangeEnd empty and test the compare's Target/Result", 4)
 	res.rule("C16-R3", "the shim builds one ResponseOp of the prescribed kind per shape", 4)
 	res.rule("C16-R4", "unsupported RPC handlers reach no backend write", 5)
+	res.rule("C16-R7", "watch and range answers are not corrupted after they were handed over: batches sent over channels are never written again by the sender (C05-R9)", 2)
 	res.rule("C16-R6", "a Range answer is the backend's complete snapshot read: no key missing, duplicated or out of order because of partitioning or a retried scan (C13-R5/R6/R8)", 5)
 	res.rule("C16-R5", "the failure branch of update/delete answers with the key-value read after the failed write", 2)
 
@@ -545,6 +546,9 @@ func checkC16(p *Prog, res *Result, tier string) {
 		}
 	}
 
+	// ---- R7: hand-off aliasing (C05-R9) ----
+	checkHandOffAliasing(p, res, "C16-R7", "pkg/backend", "pkg/backend/scanner")
+
 }
 
 func localHelpers(f *ssa.Function, pkg *ssa.Package) []*ssa.Function {
@@ -874,6 +878,20 @@ func checkFailureBranchKv(p *Prog, r *Roles, res *Result, f *ssa.Function, casFa
 				for _, hi := range hb.Instrs {
 					al, ok := hi.(*ssa.Alloc)
 					if !ok || !types.Identical(al.Type(), types.NewPointer(kvType)) {
+						continue
+					}
+					// a pure builder (fields are its own parameters) is judged at its call, below
+					pure := false
+					for i := 0; i < kst.NumFields(); i++ {
+						if fname := kst.Field(i).Name(); fname == "Value" || fname == "Revision" {
+							if fv, ok := p.builtFieldValue(al, kst.Field(i)); ok {
+								if prm, isPrm := p.resolveDeep(fv).(*ssa.Parameter); isPrm && prm.Parent() == h {
+									pure = true
+								}
+							}
+						}
+					}
+					if pure {
 						continue
 					}
 					n++
